@@ -529,7 +529,8 @@ def odd_cases():
     from .gen_hist import SPECIAL_IDS
     for k, sp in enumerate(SPECIAL_IDS):
         other = SPECIAL_IDS[(k + 5) % len(SPECIAL_IDS)]
-        sro = B.ro_doc([st('A'), B.story(sp, [B.item('I1'), B.item(sp), B.p('x'), B.item(other)]), st(other)], pattern='between')
+        # (a blank-ID story and a blank-ID item come first: str(None) == 'None' and the like must not make them match)
+        sro = B.ro_doc([B.story(BLANK, [B.item('I0')]), st('A'), B.story(sp, [B.item(BLANK), B.item('I1'), B.item(sp), B.p('x'), B.item(other)]), st(other)], pattern='between')
         for cls, lbl, msg in [
                 ('StoryDelete', 'delete', B.story_delete([sp])), ('StoryMove', 'move', B.story_move([other, sp])),
                 ('StoryReplace', 'replace', B.story_replace(sp, [X])), ('StoryInsert', 'insert before', B.story_insert(sp, [X])),
@@ -542,7 +543,15 @@ def odd_cases():
                 ('EAItemSwap', 'item swap', B.ea('SWAP', {'storyID': sp}, [B.ids('itemID', [sp, other])])),
                 ('EAItemMove', 'ea item move', B.ea('MOVE', {'storyID': sp, 'itemID': 'I1'}, [B.ids('itemID', [sp])])),
                 ('EAItemDelete', 'ea item delete', B.ea('DELETE', {'storyID': sp}, [B.ids('itemID', [other, sp])])),
-                ('EAItemReplace', 'ea item replace', B.ea('REPLACE', {'storyID': sp, 'itemID': sp}, [[new_item('N')]]))][k % 3::3]:
+                ('EAItemReplace', 'ea item replace', B.ea('REPLACE', {'storyID': sp, 'itemID': sp}, [[new_item('N')]])),
+                # the failing paths build their messages from these IDs too
+                ('ItemReplace', 'unknown item', B.item_replace(sp, 'ZZ', [new_item('N')])),
+                ('EAItemReplace', 'unknown item', B.ea('REPLACE', {'storyID': sp, 'itemID': 'ZZ'}, [[new_item('N')]])),
+                ('ItemInsert', 'unknown item', B.item_insert(sp, 'ZZ', [new_item('N')])),
+                ('ItemMoveMultiple', 'unknown item', B.item_move_multiple(sp, [sp, 'ZZ'])),
+                ('ItemDelete', 'unknown item', B.item_delete(sp, ['ZZ', sp])),
+                ('StoryReplace', 'unknown story next to it', B.story_replace(sp + 'x', [X])),
+                ('StoryInsert', 'carried duplicate', B.story_insert(other, [new_story(sp)]))]:
             case(cls, f'special ID {sp!r}: {lbl}', msg, sro)
     # a big running order: 300 stories of 3 items with metadata between them (child indexes up to ~600, beyond
     # every small-integer cache); operations far from both ends, self-referential ones included
@@ -624,6 +633,10 @@ def odd_cases():
             ('ItemDelete', 'blank story ref', B.item_delete(BLANK, ['I1'])),
             ('StoryInsert', 'carried story without ID', B.story_insert('C', [E('story', E('storySlug', text='also no id'))]))]:
         case(cls, 'ID-less story in the running order: ' + lbl, msg, noid_story)
+    # mosSchema values are opaque strings too: a trailing slash, other case or padding is another schema
+    sl_ro = B.ro_doc(stories, pattern='lead', extra=[B.timing_md(duration='1', schema='http://example.org/planning'), B.timing_md(duration='2', schema='S1')])
+    for sch in ('http://example.org/planning/', 'http://example.org/PLANNING', ' http://example.org/planning', 's1', 'S1 ', 'S1/'):
+        case('MetaDataReplace', f'schema look-alike {sch!r}', B.metadata_replace([B.timing_md(duration='9', schema=sch)]), sl_ro)
     # roMetadataReplace against running-order metadata blocks without a mosSchema (before / after / instead of a matching one)
     for k, blocks in enumerate([[E('mosExternalMetadata', E('mosPayload', E('x', text='no schema'))), B.timing_md(duration='1', schema='s1')],
                                 [B.timing_md(duration='1', schema='s1'), E('mosExternalMetadata', E('mosPayload'))],
